@@ -72,7 +72,6 @@ __all__ = [
 
 import binascii
 import os
-import posixpath
 import re
 import stat
 import sys
@@ -1404,7 +1403,11 @@ class TreeEntry(NamedTuple):
         """Return a copy of this entry with the given path prepended."""
         if not isinstance(self.path, bytes):
             raise TypeError(f"Expected bytes for path, got {path!r}")
-        return TreeEntry(posixpath.join(path, self.path), self.mode, self.sha)
+        # Plain concatenation, like the Rust _merge_entries: joining with
+        # os.path semantics would drop the prefix for a name starting with
+        # "/" and would not add a separator after a prefix ending in "/".
+        new_path = path + b"/" + self.path if path else self.path
+        return TreeEntry(new_path, self.mode, self.sha)
 
 
 def parse_tree(
